@@ -68,6 +68,9 @@ pub struct WorldSpec {
     pub poll_cost_ns: u64,
     /// the main input files behave like pipes (`cmd | sqlgrep --stdin`, FIFOs): size 0 in metadata, not seekable
     pub pipe_inputs: bool,
+    /// follow modes: the descriptor handed to the follower is positioned here first (an inherited descriptor such
+    /// as redirected stdin need not be at byte 0)
+    pub pre_seek: Option<u64>,
 }
 
 impl WorldSpec {
@@ -93,6 +96,7 @@ impl WorldSpec {
             event_budget: 20_000,
             poll_cost_ns: 0,
             pipe_inputs: false,
+            pre_seek: None,
         }
     }
 }
@@ -319,13 +323,16 @@ fn drive(spec: &WorldSpec, running: Arc<AtomicBool>) -> DriverOut {
                 }
             }
             Mode::FollowExec { head } => {
-                let file = match File::open(&spec.files[0].0) {
+                let mut file = match File::open(&spec.files[0].0) {
                     Ok(f) => f,
                     Err(err) => {
                         out.status = Status::Setup(format!("open: {}", err));
                         return out;
                     }
                 };
+                if let Some(pos) = spec.pre_seek {
+                    let _ = file.seek(SeekFrom::Start(pos));
+                }
                 let mut display_options = DisplayOptions::default();
                 display_options.output_format = parse_format(&spec.format);
                 match FollowFileExecutor::new(running.clone(), file, *head, display_options, ExecutionEngine::new(&tables, &statement)) {
@@ -341,13 +348,16 @@ fn drive(spec: &WorldSpec, running: Arc<AtomicBool>) -> DriverOut {
                 let _ = std::io::stdout().flush();
             }
             Mode::FollowIter { head, cap } => {
-                let file = match File::open(&spec.files[0].0) {
+                let mut file = match File::open(&spec.files[0].0) {
                     Ok(f) => f,
                     Err(err) => {
                         out.status = Status::Setup(format!("open: {}", err));
                         return out;
                     }
                 };
+                if let Some(pos) = spec.pre_seek {
+                    let _ = file.seek(SeekFrom::Start(pos));
+                }
                 let mut reader = BufReader::with_capacity((*cap).max(1), file);
                 let seek = if *head { reader.seek(SeekFrom::Start(0)) } else { reader.seek(SeekFrom::End(0)) };
                 if let Err(err) = seek {
